@@ -447,12 +447,19 @@ def run_property(pid, tier, seed, replay=None):
                 v = dict(v, shrunk_from=v["line"][:2000], line=line,
                          model=run_model([line])[0], implementation=call_impl(mod, line))
         k = len(printed)
+        # a module whose requests share library objects (`history_key`) replays the earlier requests on the same object too
+        hk = getattr(mod, "history_key", None)
+        hist = [v["line"]]
+        if hk is not None and v["line"] in lines and "shrunk_from" not in v:
+            i_fail = lines.index(v["line"])
+            key = hk(v["line"])
+            hist = [l for l in lines[:i_fail] if hk(l) == key][-60:] + [v["line"]]
         if v["kind"] == "failing-input":
-            rel = write_replay(pid, seed, k, dict(v, lines=[v["line"]],
+            rel = write_replay(pid, seed, k, dict(v, lines=hist,
                                what="the implementation breaks the property on this input"))
             printed.append(f"VIOLATION property={pid} replay={rel}")
         else:
-            rel = write_replay(pid, seed, k, dict(v, lines=[v["line"]],
+            rel = write_replay(pid, seed, k, dict(v, lines=hist,
                                correspondence=f"correspondence:{pid}/{v['tag']}",
                                what="model and implementation disagree; the independent oracle does not condemn the "
                                     "implementation on this input, so the property is no longer shown to hold"))
